@@ -237,10 +237,9 @@ class Ref:
                 if x <= 0:
                     raise BasicError("log of non-positive")
                 return (math.log(x) if n == "log" else math.log10(x)) * self.bias
-            if n == "floor":
-                return float(math.floor(x))
-            if n == "ceil":
-                return float(math.ceil(x))
+            if n in ("floor", "ceil"):
+                v = float(math.floor(x) if n == "floor" else math.ceil(x))
+                return math.copysign(0.0, x) if v == 0 else v          # C keeps the sign of a zero result (STR$ prints it)
             return {"sin": math.sin, "cos": math.cos, "tan": math.tan, "arctan": math.atan}[n](x) * self.bias
         if n == "len":
             return float(len(self.sval(args[0])))
@@ -713,7 +712,7 @@ class Gen:
         if c < 0.84:
             return ("bin", r.choice(["and", "or", "xor"]), self.nexpr(d + 1, small=True), self.nexpr(d + 1, small=True))
         if c < 0.89:
-            b = r.choice([lit(r, "int"), ("num", "2", 2.0), ("num", "0.5", 0.5), ("un", "-", ("num", "1", 1.0)), ("num", "3", 3.0), ("bin", "^", ("num", "2", 2.0), ("num", "2", 2.0))])
+            b = r.choice([lit(r, "int"), ("num", "2", 2.0), ("num", "0.5", 0.5), ("un", "-", ("num", "1", 1.0)), ("num", "3", 3.0), ("bin", "^", ("num", "2", 2.0), ("num", "3", 3.0)), ("bin", "^", ("num", "3", 3.0), ("num", "2", 2.0)), ("bin", "^", ("num", "0.5", 0.5), ("un", "-", ("num", "2", 2.0)))])
             a = self.nexpr(d + 1)
             if r.random() < 0.6:
                 a = ("bin", "+", ("fn", "abs", [a]), ("num", "1", 1.0))
@@ -899,9 +898,47 @@ class Gen:
                 for j in jumps:
                     self.lines[j][1] = [("goto", end)]
                 budget -= 4
-            else:
-                self.add([("read", [("var", r.choice(NUMVARS)) if r.random() < 0.7 else ("var", r.choice(STRVARS))])] if False else [self.read_stmt()])
+            elif c < 0.985:
+                st_ = []
+                if r.random() < 0.45:
+                    self.numeric_data = True          # with RESTORE in play every DATA item and READ target is numeric, so that any alignment is type-correct
+                    st_.append(("restore", None) if r.random() < 0.4 else ("restore", -1 - r.randint(0, 5)))
+                st_.append(self.read_stmt())
+                self.add(st_)
                 budget -= 1
+            else:
+                self.array_sweep()
+                budget -= 6
+
+    def array_sweep(self):
+        """fill every element of an array with a value that encodes its subscripts, then read it back in another order: any aliasing of two elements shows"""
+        r = self.r
+        free = [v for v in self.loopvars if v not in self.used_loop]
+        nums = [n for n in self.arrays if not n.endswith("$")]
+        if not nums:
+            return
+        name = r.choice(nums)
+        dims = self.arrays[name]
+        if len(free) < len(dims) or len(dims) > 3:
+            return
+        vs = free[:len(dims)]
+        code = None
+        for v, w in zip(vs, [1, 13, 13 * 17][:len(dims)]):
+            term = ("bin", "*", ("var", v), ("num", str(w), float(w)))
+            code = term if code is None else ("bin", "+", code, term)
+        for v, ub in zip(vs, dims):
+            self.add([("for", ("var", v), ("num", "0", 0.0), ("num", str(ub), float(ub)), None)])
+        self.add([("let", ("arr", name, [("var", v) for v in vs]), ("bin", "+", code, ("num", "1", 1.0)))])
+        for v in reversed(vs):
+            self.add([("next", v)])
+        acc = r.choice(NUMVARS)
+        self.add([("let", ("var", acc), ("num", "0", 0.0))])
+        for v, ub in zip(reversed(vs), reversed(dims)):
+            self.add([("for", ("var", v), ("num", str(ub), float(ub)), ("num", "0", 0.0), ("un", "-", ("num", "1", 1.0)))])
+        self.add([("let", ("var", acc), ("bin", "+", ("bin", "*", ("var", acc), ("num", "1.0001", 1.0001)), ("arr", name, [("var", v) for v in vs])))])
+        for v in vs:
+            self.add([("next", v)])
+        self.add([("deliver", [("var", acc)])])
 
     def read_stmt(self):
         r = self.r
@@ -909,7 +946,7 @@ class Gen:
         tg = []
         self.read_types = getattr(self, "read_types", [])
         for _ in range(n):
-            if r.random() < 0.75:
+            if r.random() < 0.75 or getattr(self, "numeric_data", False):
                 tg.append(("var", r.choice(NUMVARS)))
                 self.read_types.append("n")
             else:
@@ -966,7 +1003,10 @@ class Gen:
                 self.subs[k] = self.lines[-1][0]
         # data lines: typed to match the READs in textual order (cyclic), placed at random positions
         types = getattr(self, "read_types", [])
+        data_lines = []
         if types:
+            if getattr(self, "numeric_data", False):
+                types = ["n"] * len(types)
             items = []
             for t in types * 3:
                 items.append(self.nexpr(2) if t == "n" else ("str", r.choice(WORDS)))
@@ -975,10 +1015,13 @@ class Gen:
             for ch in chunks:
                 self.ln += 10
                 self.lines.append([self.ln, [("data", ch)]])
+                data_lines.append(self.ln)
         # resolve gosub placeholders
         def fix(st):
             if st[0] == "gosub" and st[1] < 0:
                 return ("gosub", self.subs[-1 - st[1]])
+            if st[0] == "restore" and st[1] is not None and st[1] < 0:
+                return ("restore", data_lines[(-1 - st[1]) % len(data_lines)] if data_lines else None)
             if st[0] == "if":
                 return ("if", st[1], [fix(s) for s in st[2]] if isinstance(st[2], list) else st[2], [fix(s) for s in st[3]] if isinstance(st[3], list) else st[3])
             return st
